@@ -546,7 +546,12 @@ func ruleC04Quote(e *Env) {
 			// any other success return is one of the two other forms, each the result of one call (the object writer,
 			// strconv.AppendUint — C04.forms reads them): a text built on the spot (a fast path for round sizes, a second
 			// way of quoting) is a string form this rule has not read
-			if c, ok := r.Results[0].(*ssa.Call); !ok || c.Call.StaticCallee() == nil {
+			c, ok := r.Results[0].(*ssa.Call)
+			if ok {
+				f := c.Call.StaticCallee()
+				ok = f != nil && (flow.InRepo(f) || f.String() == "strconv.AppendUint")
+			}
+			if !ok {
 				e.S.Bad(rule, site, "result", "a further success return builds its own text ("+r.Results[0].String()+"): besides the object form, the number form and the one quoted text nothing is to be returned", e.posOf(r), "Size(1024) on a fast path for whole kibibytes")
 				return
 			}
